@@ -316,6 +316,13 @@ def run(prog, ctx):
     ctx.rule("R16.3", "from_fill_fn, random, from_blocks, from_dense agree on signature defaults, resolver call and forwarded keywords")
     ctx.rule("R16.4", "fixed-symmetry classes, utils.from_dense's table and the get_rand / rand_index chains agree with the registry")
     ctx.rule("R16.5", "index constructors sort the charge table; to_dense iterates sorted charges")
+    ctx.rule("R16.6", "abstract evaluation: from_blocks (generic class with a symmetry object / name, fixed-symmetry class, charge omitted when "
+                      "identity), from_fill_fn and random build the array the direct constructor builds from the same description")
+    ctx.rule("R16.7", "abstract evaluation: to_dense then from_dense with the matching labels is the identity on blocks; from_dense with "
+                      "interleaved labels then to_dense is the projection onto the charge-conserving sectors reordered by charge")
+    from rules.sem_ctor import check_constructors
+
+    ctx.guarded("R16.6", prog.func("symmray.abelian_core:AbelianArray.from_blocks"), check_constructors, prog, ctx)
     check_default_capture(prog, ctx)
     check_dead_params(prog, ctx)
     check_ctor_flow(prog, ctx)
